@@ -56,7 +56,11 @@ chk.assumptions = ['all written values are dyadic rationals and the box is dyadi
                    'and not part of the property); indexed writes of invalid atype values, scalar writes to vector '
                    'properties, atoms_prop(value=Atoms, scale=True) (rewrites its argument) are outside the alphabet',
                    'a child obtained with a slice / int index may alias its parent (numpy view semantics); parents are '
-                   're-checked only after list / boolean-mask extraction, extend, atoms_extend and deepcopy']
+                   're-checked only after list / boolean-mask extraction, extend, atoms_extend and deepcopy',
+                   'a state that violates the property is reported (at most 12 failures per state) and not extended: '
+                   'histories through it would repeat the violation; on a tree where the property holds nothing is pruned',
+                   'the operand of atoms[index] = Atoms carries the same properties in another key order (the code '
+                   'checks sorted key lists, so assignment is by name)']
 
 # --------------------------------------------------------------------------
 # fixed box (dyadic entries: rel->cart is exact in binary floating point)
